@@ -6,7 +6,7 @@ Extraction "C12_model.ml" wire_anchor
   gcd_m lcm_m ratio_m ratio_divide_m mk_dty common_m duration_cast_m convertible_m conv_m
   plus_m minus_m div_m mod_m eq_m ne_m lt_m le_m gt_m ge_m
   neg_m uplus_m inc_m dec_m add_assign_m sub_assign_m mul_assign_m div_assign_m mod_assign_m
-  floor_m ceil_m round_m abs_m
+  floor_m ceil_m round_m abs_m smul_m sdiv_m smod_m tp_plus_m tp_plus_r_m tp_minus_m tp_diff_m
   tp_cast_m tp_floor_m tp_ceil_m tp_round_m tp_conv_m tp_add_assign_m tp_sub_assign_m tp_inc_m tp_dec_m
   tp_eq_m tp_lt_m tp_le_m tp_gt_m tp_ge_m typedefs_m
   cast_spec floor_spec ceil_spec round_spec abs_spec cnum cden ticks in_common
